@@ -417,7 +417,7 @@ PROPS["C12"] = {
     "rule": "one case = one long-lived real record path (pooled records and backing buffers, released after every record) "
             "processing 9 lines of mixed size and shape; every line is processed again on a freshly built path; both outcomes must "
             "be identical (unless the program samples by percentage) and equal to Pipe.process; pool: one case = one real LogAllocator (1-6 "
-            "fields, 1-3 outputs) driven by 4-40 NewRecord / field and header writes / Release calls incl. dropped records, every observation "
+            "fields wide, fewer of them named, 1-3 outputs) driven by 4-40 NewRecord (short and pooled-buffer inputs) / field and header writes / Release calls incl. dropped records, every observation incl. which pooled record and which backing buffer was handed out "
             "compared with Pool.step; distinct by ops; all non-trivial",
     "level_text": "runSteps_stateless (a transform program without percentage sampling returns the state it was given and its "
                   "result does not depend on it; mutual induction over steps and switch cases), process_stateless and "
@@ -426,13 +426,14 @@ PROPS["C12"] = {
                   "NewRecord / field writes / Release - any number of outputs, any choice sync.Pool makes, records released fewer times than they have "
                   "outputs - every pooled record has all fields empty, raw length 0, zero timestamp, count 0, no backing buffer), "
                   "C12_new_record_is_clean (the record NewRecord hands out carries nothing of an earlier one and has one reference per output), "
-                  "C12_live_counts_positive (Release cannot reach the negative-count panic on a record that is handed out); the one flag Release leaves "
+                  "C12_live_counts_positive (Release cannot reach the negative-count panic on a record that is handed out); C12_backing_buffers_disjoint (whichever pooled record and pooled buffer the pools hand out, no backing buffer is referenced by two handed-out records and none sits in the buffer pool while a handed-out record references it: the bytes a record's field values point into are never another live record's); the one flag Release leaves "
                   "behind, Unescaped, is assigned by the parser for every record (fact); three whole-body facts. "
                   "Tie: the pool component drives the real LogAllocator (which pooled record sync.Pool returned is observed by pointer identity and told "
                   "to the model) and compares every observation;  long-lived versus fresh real pipelines and the composed model, record by record; pooled-record layouts, "
                   "second serialization and live-chunk aliasing are covered by the C10 / C11 harnesses.",
-    "level_note": "Trusted: Lean kernel + 3 standard axioms. The record pool is modelled and proved clean; the backing-buffer pool "
-                  "(util.BytesPoolBy2n: raw input bytes aliased by field values until release) and every other reused buffer are not in the models - "
+    "level_note": "Trusted: Lean kernel + 3 standard axioms. The record pool and the hand-out / return of backing buffers are modelled "
+                  "(buffers identified by the address of their first byte in the harness); what a component keeps of a record's bytes after the "
+                  "record is released (cache keys, labels, templates) and every other reused buffer are not in the models - "
                   "that is what the correspondence (pooled layouts, long-lived vs fresh pipelines) decides; multi-output runs serialize each record "
                   "twice in the C10 harness.",
     "assumptions": ["percentage sampling is the only documented cross-record state"],
